@@ -462,11 +462,12 @@ theorem rewriteKeyJ_some_iff (cfg : Cfg) (fs : FS) (nd : Bool) (ftp : List (Byte
 
 theorem resolveKeyJ_some {cfg : Cfg} {fs : FS} {nd : Bool} {ftp : List (Bytes × List Bytes)}
     {key a r : Bytes} (h : resolveKeyJ cfg fs nd ftp key = .ok (some (a, r))) :
-    getAbsPath fs cfg.sourceDir (partialStep nd ftp (keyPath cfg key)) = .ok (some (a, r)) := by
+    ∃ r0, getAbsPath fs cfg.sourceDir (partialStep nd ftp (keyPath cfg key)) = .ok (some (a, r0)) ∧
+      finalRel r0 = some r := by
   unfold resolveKeyJ at h
   split at h
   · cases h
-  · exact h
+  · exact (finishPath_some_iff _ _ _).1 h
 
 /-! ### partitions, with the per-key function as a parameter -/
 
